@@ -4,6 +4,7 @@ package main
 // entry points with signed transactions. Nothing here re-implements module logic.
 
 import (
+	nodekeeper "github.com/SaoNetwork/sao/x/node/keeper"
 	"bufio"
 	"encoding/base64"
 	"encoding/hex"
@@ -261,7 +262,7 @@ func (c *Chain) BeginBlock() string {
 	if c.Halted != "" {
 		return c.Halted
 	}
-	c.stream(StreamEv{K: "begin", H: c.Height, T: c.Time.Unix(), AppHash: hex.EncodeToString(c.AppHash)})
+	c.stream(StreamEv{K: "begin", H: c.Height, T: c.Time.Unix(), AppHash: hex.EncodeToString(c.AppHash), Res: !nodekeeper.VerifSharesBeforeModified().IsZero()})
 	r := guard(WatchdogLimit, func() {
 		c.App.BeginBlock(abci.RequestBeginBlock{Header: c.header()})
 	})
@@ -329,11 +330,12 @@ func (c *Chain) Deliver(signer *Account, gas uint64, msgs ...sdk.Msg) TxResult {
 		return TxResult{Class: "rejected", Log: "encode: " + err.Error()}
 	}
 	var resp abci.ResponseDeliverTx
+	resBefore := !nodekeeper.VerifSharesBeforeModified().IsZero()
 	r := guard(WatchdogLimit, func() {
 		resp = c.App.DeliverTx(abci.RequestDeliverTx{Tx: bz})
 	})
 	if r == "" {
-		c.stream(StreamEv{K: "tx", Bz: base64.StdEncoding.EncodeToString(bz), Digest: digestTx(resp)})
+		c.stream(StreamEv{K: "tx", Bz: base64.StdEncoding.EncodeToString(bz), Digest: digestTx(resp), Res: resBefore})
 	}
 	if r == "hang" {
 		c.Halted = "hung"
